@@ -164,11 +164,17 @@ class Server(object):
         self.clients.add(sock)
         try:
             self._accept_method(sock)
-        except Exception:
+        except BaseException as ex:
             # no thread / child process could be started for this client right now (spawn(): "can't start
             # new thread", os.fork(): EAGAIN, ENOMEM), or whatever else went wrong while handing it over:
             # that is no reason to take the whole server - and the clients it is serving - down.
-            # Turn this one client away, forget its socket, go on accepting
+            # Turn this one client away, forget its socket, go on accepting.
+            # An exception the PEER sent (rebuilt by vinegar: it carries _remote_tb) is treated alike whatever
+            # class it names - SystemExit, KeyboardInterrupt - when the server talks to the client in this
+            # thread (ThreadPoolServer builds the connection and runs on_connect here); a local
+            # KeyboardInterrupt / SystemExit still ends the server
+            if not isinstance(ex, Exception) and not hasattr(ex, "_remote_tb"):
+                raise
             self.logger.exception("could not start serving %s; rejecting the connection", addrinfo)
             self.clients.discard(sock)
             try:
@@ -454,9 +460,10 @@ class ThreadPoolServer(Server):
                 active_clients = self.poll_object.poll(0.1)
                 # for each client that became active, put them in the active queue
                 self._handle_poll_result(active_clients)
-            except Exception:
+            except BaseException:
                 ex = sys.exc_info()[1]
-                # "Caught exception in Worker thread" message
+                # "Caught exception in Worker thread" message (BaseException: the poller closes connections,
+                # whose disconnect hooks and whatever the peer sent run in this thread)
                 self.logger.warning("Failed to poll clients, caught exception : %s", str(ex))
                 # wait a bit so that we do not loop too fast in case of error
                 time.sleep(0.2)
@@ -475,8 +482,9 @@ class ThreadPoolServer(Server):
                 # the connection has been closed by the remote end. Close it on our side and return
                 self._drop_connection(fd, conn)
                 return
-            except Exception:
+            except BaseException:
                 # put back the connection to active queue in doubt and raise the exception to the upper level
+                # (BaseException: an exception reply of the peer may name SystemExit / KeyboardInterrupt)
                 self._active_connection_queue.put(fd)
                 raise
         # we've processed the maximum number of requests. Put back the connection in the active queue
@@ -499,8 +507,9 @@ class ThreadPoolServer(Server):
                 # we've timed out, let's just retry. We only use the timeout so that this
                 # thread can stop even if there is nothing in the queue
                 pass
-            except Exception:
-                # "Caught exception in Worker thread" message
+            except BaseException:
+                # "Caught exception in Worker thread" message.  BaseException: nothing a client sends - an
+                # exception reply naming SystemExit, say - may cost the pool one of its worker threads
                 self.logger.exception("failed to serve client, caught exception")
                 # wait a bit so that we do not loop too fast in case of error
                 time.sleep(0.2)
